@@ -167,6 +167,10 @@ impl<E: Entry, FLAGS: FlagConstructor> Entry for ForceFlag<E, FLAGS> {
             phantom: self.1,
         })
     }
+
+    fn sample_group(&self) -> impl Iterator<Item = crate::entry::SampleGroupElement> {
+        self.0.sample_group()
+    }
 }
 
 impl<S: EntryIoStream, FLAGS: FlagConstructor> EntryIoStream for ForceFlag<S, FLAGS> {
